@@ -10,6 +10,7 @@ import builtins
 import enum
 import hashlib
 import inspect
+import itertools
 import operator
 import os
 import re
@@ -99,6 +100,9 @@ class Interp:
         self.nqueries = 0
         self.unknown_feasibility = 0
         self.digit_defs = set()
+        self.external_calls = set()  # names of non-repo callables executed natively (C13: sources of nondeterminism)
+        self.random_model = None
+        self.loop_generic = set()    # qualnames whose `for _ in range(N)` retry loop is verified as ONE generic iteration
         self.interfere = set()      # C14: (class, attr) of shared fields another thread may overwrite at any time
         self.interfered = []
         self.guarantee = {}         # (class, attr) -> [(pc, value term)] collected from an undisturbed exploration
@@ -518,7 +522,12 @@ class Interp:
             self.exec_block(s.orelse, f)
 
     def x_For(self, s, f):
-        for item in self.iterate(self.eval(s.iter, f)):
+        items = self.iterate(self.eval(s.iter, f))
+        if f.qual in self.loop_generic and len(items) > 1 and isinstance(s.target, ast.Name) and s.target.id == "_":
+            # retry loop: the body does not depend on the iteration (the loop variable is unused and every local it
+            # reads is assigned earlier in the same iteration): one generic iteration, then the for-else
+            items = items[:1]
+        for item in items:
             self.assign(s.target, item, f)
             try:
                 self.exec_block(s.body, f)
@@ -833,6 +842,8 @@ class Interp:
             return v
         if isinstance(obj, (SStr, SDecStr, SFn, SOpaqueStr)):
             return Special("strmethod", obj, name)
+        if isinstance(obj, enum.Enum) and name in ("value", "name", "_value_", "_name_"):
+            return getattr(obj, name)
         if isinstance(obj, str):
             return Special("strmethod", obj, name)
         if isinstance(obj, re.Pattern) and name in ("match", "fullmatch", "sub", "search"):
@@ -1496,6 +1507,13 @@ class Interp:
             return [SStr([v.at(z3.IntVal(i))]) for i in range(n)]
         if isinstance(v, SCycle):
             raise Unsupported("bare cycle iteration")
+        if isinstance(v, (itertools.cycle, itertools.count, itertools.repeat)) or (
+                hasattr(v, "__next__") and id(v) not in self.local_ids and not isinstance(v, (zip, map, enumerate, reversed, filter))):
+            # a live iterator that outlives the call: consuming it changes process-wide state (C15) and its
+            # position is unknown to the verifier
+            self.writes.append(dict(kind="iterator", target=type(v).__name__, attr="<position>", shared=True,
+                                    where="<iteration>", line=0))
+            raise Unsupported(f"consuming a shared {type(v).__name__} iterator that outlives the call")
         if isinstance(v, (list, tuple, str, range, set, frozenset, dict)):
             return list(v)
         if isinstance(v, enum.EnumType):
